@@ -690,7 +690,8 @@ fn transform_call_aggregate(location: TokenLocation,
                 "bool_and" => Aggregate::BoolAnd(expression),
                 "bool_or" => Aggregate::BoolOr(expression),
                 "array_agg" => Aggregate::CollectArray(expression),
-                _ => { panic!("should not happen") }
+                // The remaining aggregates (string_agg) take two arguments
+                _ => { return Err(ConvertParserTreeErrorType::ExpectedArgument.with_location(location)); }
             };
 
             Ok((Some(format!("{}{}", name_lowercase, index)), aggregate, None))
